@@ -97,6 +97,9 @@ func main() {
 		r.applyFloors()
 	}
 	r.Inv["configs"] = cfgNames
+	if *tier == "thorough" {
+		runControls(r, id, *repo, *verif)
+	}
 	os.Exit(r.finish(*verif))
 }
 
